@@ -37,3 +37,19 @@ func init() {
 		return nil
 	}
 }
+
+func init() {
+	cmds["c15-one"] = func(a []string) error {
+		var c c15Case
+		if err := json.Unmarshal([]byte(a[0]), &c); err != nil {
+			return err
+		}
+		b0 := c15Case{Role: c.Role, Ca: c.Ca, Op: peerOp{Op: "none"}}
+		o0, err := runC15(&b0, true)
+		fmt.Printf("baseline: %+v %v\n", o0, err)
+		o, err := runC15(&c, false)
+		b, _ := json.MarshalIndent(o, "", " ")
+		fmt.Println(string(b), err)
+		return nil
+	}
+}
